@@ -5,7 +5,7 @@ import random
 BASE_W = dict(
     src=2, ref=6, select=4, drop=2, rename=4, mutate=6, mutate_w=1, filter=3, filter_empty=0, arrange=2,
     slice_head=1, group_by=2, ungroup=1, summarize=2, join=3, union=1, alias=2, collect=1,
-    clone=0, recompute=0, transfer=0, expr=0, collide_setup=0, selfjoin=0, hide_ref=0, touch_hidden_computed=0, hidden_computed_scenario=0, disjoint_join_scenario=0, overwrite_chain_scenario=0, pipe=0, apply_pipe=0, observe=0, collect_lazy=0, cq_probe=0, join_chain_scenario=0, hidden_const_join_scenario=0, agg_selfjoin_scenario=0, hidden_group_reject_scenario=0,
+    clone=0, recompute=0, transfer=0, expr=0, collide_setup=0, selfjoin=0, hide_ref=0, touch_hidden_computed=0, hidden_computed_scenario=0, disjoint_join_scenario=0, overwrite_chain_scenario=0, pipe=0, apply_pipe=0, observe=0, collect_lazy=0, cq_probe=0, join_chain_scenario=0, hidden_const_join_scenario=0, agg_selfjoin_scenario=0, hidden_group_reject_scenario=0, const_alias_selfjoin_scenario=0,
     uuid_regime=1, gc=0, arm_engine=0, reject=0,
 )  # fmt: skip
 
@@ -35,6 +35,7 @@ PROFILES = {
         rename_modes=[3, 3, 2, 1, 2],
         p_odd_names=0.2,
         p_empty_name=0.15,
+        group_by_const=True,  # (names only are judged here; row-level effects are C04 territory)
         p_summarize_overwrite_group=0.3,
         crash_subjects={},
         core_ops=("src", "select", "mutate", "rename"),
@@ -72,7 +73,7 @@ PROFILES = {
     "reroot": dict(
         property="C16",
         oracles=["O16"],
-        weights=_w(alias=8, collect=6, clone=4, transfer=4, recompute=2, ref=8, hide_ref=3, join=3, selfjoin=6, agg_selfjoin_scenario=2, rename=4, select=4, mutate=5, group_by=4, summarize=2, union=0, mutate_w=1),
+        weights=_w(alias=8, collect=6, clone=4, transfer=4, recompute=2, ref=8, hide_ref=3, join=3, selfjoin=6, agg_selfjoin_scenario=2, const_alias_selfjoin_scenario=2, rename=4, select=4, mutate=5, group_by=4, summarize=2, union=0, mutate_w=1),
         mutate_kinds=EW,
         window_kinds=WIN,
         p_oos=0.15,
@@ -85,7 +86,7 @@ PROFILES = {
     "sharing": dict(
         property="C10",
         oracles=["O10"],
-        weights=_w(reject=3, expr=6, pipe=3, apply_pipe=5, observe=8, collect_lazy=3, mutate=8, mutate_w=3, summarize=5, group_by=5, ungroup=2, ref=5, join=2, union=1, gc=1, arm_engine=1, select=2, rename=2, alias=2, collect=1, clone=1),
+        weights=_w(reject=3, expr=6, pipe=3, apply_pipe=5, observe=8, collect_lazy=3, mutate=8, mutate_w=3, summarize=5, group_by=5, ungroup=2, ref=5, join=2, union=1, gc=1, arm_engine=1, select=2, rename=2, alias=2, collect=1, clone=1, transfer=2),
         mutate_kinds=dict(ref=1, tag=2, pool=8, case=1, litcast=2, lit=1),
         window_kinds=dict(agg=3, shift=2, rown=1, pool=6),
         summarize_kinds=dict(agg=3, pool=5, arith_agg=1),
